@@ -7,6 +7,7 @@ pub mod engine;
 pub mod fuzz_entry;
 pub mod gen;
 pub mod mgen;
+pub mod refi;
 pub mod refm;
 pub mod transcript;
 pub mod props;
